@@ -24,9 +24,10 @@ const (
 	KNs KindC = iota
 	KCrd
 	KPlain
+	KApiSvc // apiregistration.k8s.io APIService: the kind with a client-side fallback in ApplyTask
 )
 
-func (k KindC) Coq() string { return [...]string{"KNs", "KCrd", "KPlain"}[k] }
+func (k KindC) Coq() string { return [...]string{"KNs", "KCrd", "KPlain", "KApiSvc"}[k] }
 
 // UEntry is one identifier of a history's universe. The index of the entry in
 // the universe is the nat used in the Coq terms.
@@ -405,7 +406,7 @@ func (f FAddr) Coq() string {
 		return emit.App(f.Kind, emit.Nat(f.N))
 	case "FInvDelete", "FNsCreate":
 		return f.Kind
-	case "FGet":
+	case "FGet", "FStream":
 		return emit.App(f.Kind, emit.Nat(f.I), emit.Nat(f.N))
 	case "FApply", "FUpdate", "FDelete":
 		return emit.App(f.Kind, emit.Nat(f.I))
@@ -517,6 +518,11 @@ func (e Env) Coq() string {
 func (e Env) Text() string {
 	var p []string
 	for _, a := range e.Faults {
+		if a.Kind == "FStream" {
+			// the N-th server-side-apply PATCH of the object dies with an HTTP/2 stream error
+			p = append(p, fmt.Sprintf("fault:%s/stream", a.Key()))
+			continue
+		}
 		p = append(p, fmt.Sprintf("fault:%s/%d", a.Key(), faultErrs[a.Err]))
 	}
 	for k, w := range e.Waits {
